@@ -72,6 +72,7 @@ class Profile:
     allow_host_stream_arg: bool = False
     with_bw: bool = True
     min_host_events: int = 1
+    causal_sync: bool = False                   # shrink kernels so that every synchronising call returns after the work it waits for
     n_pad: Tuple[int, int] = (0, 0)              # extra small host ops on their own thread (pushes row ids past 127 / 32767)
 
 
@@ -298,6 +299,20 @@ class Gen:
                 dev.append({"ph": "X", "cat": "gpu_user_annotation", "name": rng.choice(ANNOTATIONS + ["step", "fwd", "bwd"]), "pid": gpu_pid,
                             "tid": s, "ts": a, "dur": rng.randint(1, max(1, T - a + 1)),
                             "args": {"stream": s}})
+        if p.causal_sync:
+            calls = {e["args"]["correlation"]: e for e in host if e.get("_sync")}
+            for rec in [x for x in dev if x.get("cat") == "cuda_sync"]:
+                call = calls.get(rec["args"]["correlation"])
+                if call is None:
+                    continue
+                b, c1 = rec["ts"] + rec["dur"], call["ts"] + call["dur"]
+                for k in dev:
+                    if k.get("cat") == "cuda_sync" or k.get("cat") == "gpu_user_annotation":
+                        continue
+                    if rec["name"] == "Stream Sync" and k["args"].get("stream") != rec["args"].get("stream"):
+                        continue
+                    if k["ts"] <= b and k["ts"] + k["dur"] > c1:
+                        k["dur"] = max(0, c1 - k["ts"])
         for e in host:
             e.pop("_launch", None)
             e.pop("_sync", None)
@@ -453,3 +468,8 @@ _reg(Profile(name="cgraph_big", tmax_choices=(600, 5000), n_ranks=(1, 1), n_thre
 _reg(Profile(name="kseq", tmax_choices=(24, 40, 110, 600), n_ranks=(1, 2), n_threads=(1, 2), max_depth=4, max_children=4, p_zero_dur=0.0, p_launch=0.6,
              p_missing_kernel=0.1, p_orphan_kernel=0.1, n_steps=(0, 2), p_kernel_zero=0.05, p_same_ts_as_launch=0.05,
              kernel_names=("gemm", "relu", "ncclKernel_AllReduce", "Memcpy DtoD (Device -> Device)", "bn")))
+_reg(Profile(name="cp", tmax_choices=(20, 40, 110, 600), n_ranks=(1, 2), n_threads=(1, 2), max_depth=4, p_zero_dur=0.0, p_launch=0.55, p_mem_launch=0.3,
+             p_missing_kernel=0.1, p_orphan_kernel=0.1, n_steps=(0, 3), p_kernel_zero=0.03, p_same_ts_as_launch=0.1, p_sync=0.6, causal_sync=True,
+             n_streams=(1, 3), epoch_choices=(0, 1000000)))
+_reg(Profile(name="cp_tiny", tmax_choices=(10, 14, 20), n_ranks=(1, 1), n_threads=(1, 2), max_depth=3, p_zero_dur=0.0, p_launch=0.6, p_mem_launch=0.3,
+             n_steps=(0, 2), p_kernel_zero=0.05, p_same_ts_as_launch=0.3, p_sync=0.7, causal_sync=True, n_streams=(1, 2), epoch_choices=(0,)))
